@@ -394,3 +394,8 @@ class C07(ZooProp):
 
     def stacks(self, tier, seed):
         return self.stacks_extras(seed)[0]
+
+
+from . import c20 as _c20  # noqa: E402
+
+REG["C20"] = _c20.C20()
